@@ -15,6 +15,9 @@ ALPHA = [E.DRAIN, E.TURN, E.TIMER, E.START, E.FINISH, E.DISCONNECT, E.FORCE, E.C
 NA = len(ALPHA)
 SH0 = shard_int("SH0", 0)
 STAGE = shard_int("STAGE", 0)
+NOISE = shard_int("NOISE", 0)  # 1: encrypted transport (the scenario starts with finish_connection parked on the noise handshake)
+NEEDS_NOISE_PATCHES = True
+PSK = "QRTIErOb/fcE9Ukd/5qA3RGYMn0Y+p06U58SCtOXvPc="
 
 
 def audit(s: Scenario):
@@ -48,7 +51,7 @@ def audit(s: Scenario):
 
 def _run(events: list) -> bool:
     track.entered()
-    s = Scenario(STAGE)
+    s = Scenario(STAGE, world_kw={"noise_psk": PSK} if NOISE else None)
     try:
         for a in events:
             ev = ALPHA[concretize(a, NA - 1)]
@@ -85,10 +88,10 @@ def h08_4(a0: int, a1: int, a2: int, a3: int) -> bool:
     return _run([a0, a1, a2, a3])
 
 
-def _enabled_first(stage: int) -> list:
+def _enabled_first(stage: int, noise: int = 0) -> list:
     out = []
     for i, ev in enumerate(ALPHA):
-        s = Scenario(stage)
+        s = Scenario(stage, world_kw={"noise_psk": PSK} if noise else None)
         try:
             if s.apply(ev):
                 out.append(i)
@@ -101,10 +104,10 @@ def shards(tier: str) -> list:
     out = []
     stages = [E.ST_RESOLVING, E.ST_CONNECTING, E.ST_OPENED, E.ST_HELLO_SENT, E.ST_CONNECTED, E.ST_DISCONNECTING]
     fn = "h08_3" if tier == "quick" else "h08_4"
-    for st in stages:
-        for i in _enabled_first(st):
-            out.append({"fn": fn, "env": {"STAGE": st, "SH0": i}, "cond_timeout": 600 if tier == "quick" else 2400, "path_timeout": 60,
-                        "desc": f"stage {E.STAGE_NAMES[st]}, first event {E.NAMES[ALPHA[i]]}, then {2 if tier == 'quick' else 3} symbolic events; audit after the close"})
+    for st, nz in [(x, 0) for x in stages] + [(E.ST_HELLO_SENT, 1)]:
+        for i in _enabled_first(st, nz):
+            out.append({"fn": fn, "env": {"STAGE": st, "SH0": i, "NOISE": nz}, "cond_timeout": 600 if tier == "quick" else 2400, "path_timeout": 60,
+                        "desc": f"stage {E.STAGE_NAMES[st]}{' (noise: handshake pending)' if nz else ''}, first event {E.NAMES[ALPHA[i]]}, then {2 if tier == 'quick' else 3} symbolic events; audit after the close"})
     return out
 
 
